@@ -1308,13 +1308,14 @@ class VM:
                 arr._elements.insert(i, arg)
             return arr.length
 
-        def live_items():
+        def live_items(skip_removed=True):
             """(index, element) for the indices that exist when the method starts;
-            elements are read live, so callbacks may modify the array."""
+            elements are read live, so callbacks may modify the array. An index the
+            callback has removed meanwhile is skipped (find/findIndex: undefined)."""
             for i in range(len(arr._elements)):
                 if i < len(arr._elements):
                     yield i, arr._elements[i]
-                else:
+                elif not skip_removed:
                     yield i, UNDEFINED
 
         def array_elem_to_string(elem):
@@ -1366,8 +1367,9 @@ class VM:
                 acc = arr._elements[0]
                 start_idx = 1
             for i in range(start_idx, len(arr._elements)):
-                elem = arr._elements[i]
-                acc = vm._call_callback(callback, [acc, elem, i, arr])
+                if i < len(arr._elements):  # not removed by the callback
+                    elem = arr._elements[i]
+                    acc = vm._call_callback(callback, [acc, elem, i, arr])
             return acc
 
         def reduceRight_fn(*args):
@@ -1384,8 +1386,9 @@ class VM:
                 acc = arr._elements[length - 1]
                 start_idx = length - 2
             for i in range(start_idx, -1, -1):
-                elem = arr._elements[i]
-                acc = vm._call_callback(callback, [acc, elem, i, arr])
+                if i < len(arr._elements):  # not removed by the callback
+                    elem = arr._elements[i]
+                    acc = vm._call_callback(callback, [acc, elem, i, arr])
             return acc
 
         def splice_fn(*args):
@@ -1449,7 +1452,7 @@ class VM:
             callback = args[0] if args else None
             if not callback:
                 return UNDEFINED
-            for i, elem in live_items():
+            for i, elem in live_items(skip_removed=False):
                 val = vm._call_callback(callback, [elem, i, arr])
                 if to_boolean(val):
                     return elem
@@ -1459,7 +1462,7 @@ class VM:
             callback = args[0] if args else None
             if not callback:
                 return -1
-            for i, elem in live_items():
+            for i, elem in live_items(skip_removed=False):
                 val = vm._call_callback(callback, [elem, i, arr])
                 if to_boolean(val):
                     return i
@@ -1565,7 +1568,10 @@ class VM:
             # Sort using Python's sort with custom key
             from functools import cmp_to_key
 
-            arr._elements.sort(key=cmp_to_key(compare_fn))
+            # Sort a copy: the comparator is script code and may touch the array
+            items = list(arr._elements)
+            items.sort(key=cmp_to_key(compare_fn))
+            arr._elements[:] = items
             return arr
 
         methods = {
